@@ -201,8 +201,10 @@ func (av arrayValue) PropertyValue(iv Value) Value {
 func (mv mapValue) Contains(iv Value) bool {
 	mr := reflect.ValueOf(mv.value)
 	ir := reflect.ValueOf(iv.Interface())
-	if ir.IsValid() && mr.Type().Key() == ir.Type() {
-		return mr.MapIndex(ir).IsValid()
+	// as in IndexValue: a key of an interface type, or of a named type of the same kind, is a key
+	kt := mr.Type().Key()
+	if ir.IsValid() && ir.Type().ConvertibleTo(kt) && (kt.Kind() == reflect.Interface || kt.Kind() == ir.Kind()) && ir.Comparable() {
+		return mr.MapIndex(ir.Convert(kt)).IsValid()
 	}
 	return false
 }
